@@ -875,6 +875,9 @@ def sample(case, res):
                  regs={k: hex(v) for k, v in list(case['cores'][0]['regs']['R'].items())[:16]})
     elif s == 'align':
         d.update(word=hex(case['word']), kind=case['kind'], first=hex(case['first']), mode=case['meta']['mode'], thumb=case['meta']['thumb'])
+    elif s == 'deny_sweep':
+        c = case['cores'][0]
+        d.update(thumb=case['thumb'], config=c['config'], start_cpsr=hex(c['regs']['cpsr']), n_words=len(c['words']), words=['%08x' % w for w in c['words'][:8]])
     else:
         d.update(meta={k: v for k, v in case['meta'].items() if k != 'handlers'}, events=case['events'][:6], code=case['cores'][0]['devices'][1]['data']['0'][:120])
     return d
@@ -882,6 +885,15 @@ def sample(case, res):
 
 def shrink(case):
     s = case['scenario']
+    if s == 'deny_sweep':
+        # the register reload is a function of the position in the word list: keep the prefix up to the failing tick
+        words = case['cores'][0]['words']
+        res = run(case)
+        if res['violations']:
+            t = res['violations'][0].get('tick', len(words))
+            if t + 1 < len(words):
+                yield dict(case, cores=[dict(case['cores'][0], words=words[:t + 1])], max_ticks=t + 3)
+        return
     if s == 'translate':
         p = case['probes']
         for i in range(len(p)):
